@@ -226,3 +226,85 @@ def membership_in_a_dict_filled_by_a_loop(keys, probe):
     for k in keys:
         d[k] = 1
     return (probe in d) == (probe in keys)
+
+
+# --- constructs the proofs of the real functions rely on ------------------------------------------------------------------
+@lemma(dict(a=Int(-2, 1001)), prop=["ENGINE"])
+def chained_comparison_and_int_of_a_numeric_string(a):
+    s = str(a)
+    k = int(s)
+    if 1 <= k <= 499:
+        return a >= 1 and a < 500
+    if 500 <= k <= 900:
+        return not (a < 500) and not (a > 900)
+    return a < 1 or a > 900
+
+
+@lemma(dict(a=Int(-3, 3), b=Int(-3, 3)), prop=["ENGINE"])
+def zip_pairs_by_position_and_dict_keeps_the_last_value(a, b):
+    keys = ["x", "y", "x"]
+    vals = [a, b, a + b]
+    d = dict(zip(keys, vals))
+    return d["x"] == a + b and d["y"] == b and len(d) == 2
+
+
+@lemma(dict(a=Int(-3, 3), b=Int(-3, 3)), prop=["ENGINE"], canary=True)
+def canary_dict_of_zip_keeps_the_first_value(a, b):
+    d = dict(zip(["x", "y", "x"], [a, b, a + b]))
+    return d["x"] == a
+
+
+@lemma(dict(a=Int(-3, 3), b=Int(-3, 3)), prop=["ENGINE"])
+def all_any_and_conditional_expressions(a, b):
+    xs = [a, b, 1]
+    pos = all(x > 0 for x in xs)
+    some = any(x > 0 for x in xs)
+    m = a if a > b else b
+    return pos == (a > 0 and b > 0) and some and m >= a and m >= b and (m == a or m == b)
+
+
+@lemma(dict(s=Str(), flag=Bool()), prop=["ENGINE"])
+def optional_values_is_none_and_not_in(s, flag):
+    v = s if flag else None
+    known = ["a", "b"]
+    if v is None:
+        return not flag
+    if v not in known:
+        return flag and s != "a" and s != "b"
+    return s == "a" or s == "b"
+
+
+@lemma(dict(a=Int(-3, 3), b=Int(-3, 3)), prop=["ENGINE"])
+def tuple_unpacking_augmented_assignment_and_list_concatenation(a, b):
+    x, y = b, a
+    x += 1
+    zs = [x] + [y, y]
+    zs.append(x - 1)
+    return zs == [b + 1, a, a, b] and len(zs) == 4
+
+
+@lemma(dict(a=Int(-3, 3)), prop=["ENGINE"])
+def exceptions_are_caught_by_class_hierarchy(a):
+    def f():
+        if a > 0:
+            raise KeyError("k")
+        if a < 0:
+            raise ValueError("v")
+        return 0
+    try:
+        r = f()
+    except LookupError:
+        return a > 0
+    except Exception:
+        return a < 0
+    return r == 0 and a == 0
+
+
+@lemma(dict(a=Int(-3, 3)), prop=["ENGINE"], canary=True)
+def canary_key_error_is_not_a_lookup_error(a):
+    try:
+        if a > 0:
+            raise KeyError("k")
+    except LookupError:
+        return False
+    return True
